@@ -294,3 +294,6 @@ def run(ctx, rep):
 
     # ---- encoder range -------------------------------------------------------------------------
     shared.check_int_encoder_range(ctx, rep, 'R15.6')
+    rep.rule('R15.7', 'constant de-duplication never equates values of different type (tag compared on every path)')
+    from rules import c10
+    c10.check_dedup(ctx, rep, 'R15.7')
